@@ -1,5 +1,6 @@
 import Proofs.GCorrLemmas
 import Proofs.FCorrLemmas
+import Proofs.TanProjLemmas
 
 /-!
 # C03 — detector, tangent-plane and world transforms of a corrector are coherent
@@ -212,5 +213,377 @@ example :
     g.worldToDet env (g.detToWorld env ⟨1/2, 1/3⟩) = ⟨1/2, 1/3⟩
       ∧ g.tanpToWorld env (g.detToTanp env ⟨1/2, 1/3⟩) = g.detToWorld env ⟨1/2, 1/3⟩ := by
   decide +kernel
+
+/-! ### The concrete V2V3 ⇄ tangent-plane pipeline of `JWSTWCSCorrector` inside the model
+
+`Model/TanProj.lean` builds `U = unit_conv | s2c | rot | c2tan` and
+`Uinv = tan2c | rot_inv | c2s | unit_conv_inv` of `_tpcorr_init` concretely.  (a) Cartesian core
+over any ordered field, (b) orthogonality of the rotation sequence, (c) sphere ⇄ Cartesian at `ℝ`,
+(d) the two round trips of `U`, (e) consequences for the corrector model (`D`, `R` still
+arbitrary bijections) and for `total_corr`. -/
+section tanproj
+
+/-! #### (a) Cartesian core -/
+
+/-- plane → ray → rotate back → rotate → plane is the identity for EVERY plane point, as soon as
+`R·Rᵀ = I` -/
+theorem tanproj_cart_plane_roundtrip (r : M3 K) (h : r.mul r.transpose = M3.one) (p : V2 K) :
+    c2tan (r.mulVec (r.transpose.mulVec (tan2c p))) = p :=
+  cart_plane_roundtrip r h p
+
+/-- direction → plane → direction returns the same ray, `(1/(R v).x) • v`, whenever the rotated
+vector is off the plane `x = 0`, as soon as `Rᵀ·R = I` -/
+theorem tanproj_cart_ray_roundtrip (r : M3 K) (h : r.transpose.mul r = M3.one) (v : V3 K)
+    (hx : (r.mulVec v).x ≠ 0) :
+    r.transpose.mulVec (tan2c (c2tan (r.mulVec v))) = V3.smul (1 / (r.mulVec v).x) v :=
+  cart_ray_roundtrip r h v hx
+
+/-- the executable Cartesian core (driver op `tp.cart`) with an affine map applied first -/
+theorem tanproj_cartPlane (r : M3 K) (h : r.mul r.transpose = M3.one) (a : Aff K) (p : V2 K) :
+    cartPlane r r.transpose a p = a.app p :=
+  cart_plane_roundtrip r h (a.app p)
+
+-- non-vacuity: a rational rotation sequence from three Pythagorean triples is orthogonal, and a
+-- concrete direction is off the plane `x = 0`
+example :
+    let r : M3 ℚ := rotZYXcs (3/5) (4/5) (5/13) (12/13) (8/17) (15/17)
+    r.mul r.transpose = M3.one ∧ r.transpose.mul r = M3.one ∧ (r.mulVec ⟨2/7, -1/3, 1/5⟩).x ≠ 0 ∧
+      cartPlane r r.transpose ⟨⟨1, 1/10, 0, 1⟩, ⟨5, -7⟩⟩ ⟨1/2, 1/3⟩ = ⟨83/15, -20/3⟩ := by
+  decide +kernel
+
+/-! #### (b) the rotation sequence -/
+
+/-- `_create_matrix(angles, 'zyx')` is orthogonal whenever each `(c, s)` pair lies on the unit
+circle -/
+theorem tanproj_rotZYXcs_orth (c0 s0 c1 s1 c2 s2 : K) (h0 : c0 * c0 + s0 * s0 = 1)
+    (h1 : c1 * c1 + s1 * s1 = 1) (h2 : c2 * c2 + s2 * s2 = 1) :
+    (rotZYXcs c0 s0 c1 s1 c2 s2).mul (rotZYXcs c0 s0 c1 s1 c2 s2).transpose = M3.one ∧
+    (rotZYXcs c0 s0 c1 s1 c2 s2).transpose.mul (rotZYXcs c0 s0 c1 s1 c2 s2) = M3.one :=
+  rotZYXcs_orth c0 s0 c1 s1 c2 s2 h0 h1 h2
+
+/-- the matrix of `RotationSequence3D.inverse` (axes reversed, angles reversed and negated:
+`cos` even, `sin` odd) is the transpose — for all `c`, `s` -/
+theorem tanproj_rotXYZcs_neg_eq_transpose (c0 s0 c1 s1 c2 s2 : K) :
+    rotXYZcs c2 (-s2) c1 (-s1) c0 (-s0) = (rotZYXcs c0 s0 c1 s1 c2 s2).transpose :=
+  rotXYZcs_neg_eq_transpose c0 s0 c1 s1 c2 s2
+
+example : (3/5 : ℚ) * (3/5) + (4/5) * (4/5) = 1 ∧ (5/13 : ℚ) * (5/13) + (12/13) * (12/13) = 1 ∧
+    (8/17 : ℚ) * (8/17) + (15/17) * (15/17) = 1 := by decide +kernel
+
+/-- at `ℝ`: for ALL angles the model's `rot` is orthogonal and the model's `rot_inv` is its
+transpose -/
+theorem tanproj_rotZYX_orth (a0 a1 a2 : ℝ) :
+    (rotZYX a0 a1 a2).mul (rotZYX a0 a1 a2).transpose = M3.one ∧
+    (rotZYX a0 a1 a2).transpose.mul (rotZYX a0 a1 a2) = M3.one ∧
+    rotZYXinv a0 a1 a2 = (rotZYX a0 a1 a2).transpose :=
+  ⟨(rotZYX_orth a0 a1 a2).1, (rotZYX_orth a0 a1 a2).2, rotZYXinv_eq_transpose a0 a1 a2⟩
+
+/-! #### (c) sphere ⇄ Cartesian at `ℝ` -/
+
+/-- `c2s ∘ s2c = id` for `lon ∈ (−180, 180]` (the range of `arctan2`; `wrap_lon_at=180` applies
+no further wrapping) and `lat ∈ (−90, 90)` -/
+theorem tanproj_c2s_s2c (lon lat : ℝ) (h1 : -180 < lon) (h2 : lon ≤ 180) (h3 : -90 < lat)
+    (h4 : lat < 90) : c2s (s2c lon lat) = ⟨lon, lat⟩ :=
+  c2s_s2c lon lat h1 h2 h3 h4
+
+example : (-180 : ℝ) < 180 ∧ (180 : ℝ) ≤ 180 ∧ (-90 : ℝ) < 89 ∧ (89 : ℝ) < 90 := by norm_num
+
+/-- `c2s` sees the ray only -/
+theorem tanproj_c2s_smul (k : ℝ) (hk : 0 < k) (v : V3 ℝ) : c2s (V3.smul k v) = c2s v :=
+  c2s_smul k hk v
+
+/-- `s2c ∘ c2s` is the normalisation `v ↦ v/‖v‖`, for every `v ≠ 0` including the poles (where
+`lon[h == 0] *= 0` acts) -/
+theorem tanproj_s2c_c2s (v : V3 ℝ) (hv : v ≠ ⟨0, 0, 0⟩) :
+    s2c (c2s v).x (c2s v).y = V3.smul (1 / v.norm) v :=
+  s2c_c2s v hv
+
+example : (⟨0, 0, -2⟩ : V3 ℝ) ≠ ⟨0, 0, 0⟩ := by
+  intro h; have := congrArg V3.z h; norm_num at this
+
+/-- the exact boundary behaviour of the code's conventions: longitudes are `360`-periodic on the
+way in (so `c2s ∘ s2c` returns the representative in `(−180, 180]`), and at the poles the
+longitude is lost (`lon[h == 0] *= 0`) -/
+theorem tanproj_c2s_s2c_boundary (lon lat : ℝ) :
+    s2c (lon + 360) lat = s2c lon lat ∧ c2s (s2c lon 90) = ⟨0, 90⟩ ∧
+      c2s (s2c lon (-90)) = ⟨0, -90⟩ :=
+  ⟨s2c_periodic lon lat, c2s_s2c_north lon, c2s_s2c_south lon⟩
+
+/-! #### (d) round trips of `U` -/
+
+/-- `U (Uinv x) = x` for EVERY plane point and every reference triple -/
+theorem tanproj_U_Uinv (v2ref v3ref roll : ℝ) (x : V2 ℝ) :
+    tpU v2ref v3ref roll (tpUinv v2ref v3ref roll x) = x :=
+  tpU_tpUinv v2ref v3ref roll x
+
+/-- `Uinv (U v) = v` for every V2V3 point (arcsec) with longitude in `(−180°, 180°]`, latitude in
+`(−90°, 90°)` in the open hemisphere facing the reference direction -/
+theorem tanproj_Uinv_U (v2ref v3ref roll : ℝ) (v : V2 ℝ)
+    (hd : tpInDomain v2ref v3ref roll v = true) :
+    tpUinv v2ref v3ref roll (tpU v2ref v3ref roll v) = v :=
+  tpUinv_tpU v2ref v3ref roll v hd
+
+-- non-vacuity: reference direction `v2_ref = 90°`, a point 30° away from it (`v2 = 60° = 216000″`)
+example : tpInDomain (90 : ℝ) 0 0 ⟨216000, 0⟩ = true := tpInDomain_example
+
+/-- the hemisphere condition is necessary: a point that `Uinv ∘ U` returns unchanged lies in
+the open hemisphere facing the reference direction -/
+theorem tanproj_Uinv_U_only_hemisphere (v2ref v3ref roll : ℝ) (v : V2 ℝ)
+    (hv : tpUinv v2ref v3ref roll (tpU v2ref v3ref roll v) = v) :
+    0 < ((tpRot v2ref v3ref roll).mulVec (v23ToCart v)).x := by
+  have := tpUinv_hemisphere v2ref v3ref roll (tpU v2ref v3ref roll v)
+  rwa [hv] at this
+
+/-- the decidable domain predicate of the model, spelled out -/
+theorem tanproj_domain_iff (v2ref v3ref roll : ℝ) (v : V2 ℝ) :
+    tpInDomain v2ref v3ref roll v = true ↔
+    (-180 < (arcsec2deg v).x ∧ (arcsec2deg v).x ≤ 180 ∧ -90 < (arcsec2deg v).y ∧
+      (arcsec2deg v).y < 90 ∧ 0 < ((tpRot v2ref v3ref roll).mulVec (v23ToCart v)).x) :=
+  tpInDomain_iff v2ref v3ref roll v
+
+/-- every point `Uinv` returns is in the closed domain's hemisphere: the image of the plane is
+the set of directions whose rotated first coordinate is positive -/
+theorem tanproj_Uinv_hemisphere (v2ref v3ref roll : ℝ) (x : V2 ℝ) :
+    0 < ((tpRot v2ref v3ref roll).mulVec (v23ToCart (tpUinv v2ref v3ref roll x))).x :=
+  tpUinv_hemisphere v2ref v3ref roll x
+
+/-! #### (e) the corrector model when `U` is only a partial bijection -/
+section pbij
+variable (env : GEnv K) {dom : V2 K → Prop} (h : env.PBij dom) (g : GCorr K) (hg : g.WF)
+include h hg
+
+/-- `det_to_tanp ∘ tanp_to_det = id`: needs `U ∘ Uinv = id` only — unconditional -/
+theorem pgwcs_det_tanp (x : V2 K) : g.detToTanp env (g.tanpToDet env x) = x := by
+  simp only [GCorr.detToTanp, GCorr.tanpToDet, GCorr.partialFwd, GCorr.partialInv, h.D_Dinv,
+    h.U_Uinv, Aff.app_inv _ hg.1, smul_sdiv _ h.c_ne]
+
+/-- `world_to_tanp ∘ tanp_to_world = id` — unconditional -/
+theorem pgwcs_tanp_world (x : V2 K) : g.worldToTanp env (g.tanpToWorld env x) = x := by
+  cases hc : g.corrected with
+  | true =>
+    simp only [GCorr.worldToTanp, GCorr.tanpToWorld, GCorr.partialFwd, GCorr.partialInv,
+      g.worldToV23_corrected env hc, g.v23ToWorld_corrected env hc, h.U_Uinv, h.Rinv_R,
+      Aff.app_inv _ hg.1, smul_sdiv _ h.c_ne]
+  | false =>
+    simp only [GCorr.worldToTanp, GCorr.tanpToWorld, GCorr.partialFwd, GCorr.partialInv,
+      g.worldToV23_fresh env hc, g.v23ToWorld_fresh env hc, h.U_Uinv, h.Rinv_R,
+      Aff.app_inv _ hg.1, smul_sdiv _ h.c_ne]
+
+/-- `tanp_to_det ∘ det_to_tanp = id` at detector points whose V2V3 image is in the domain -/
+theorem pgwcs_tanp_det (p : V2 K) (hd : dom (env.D p)) :
+    g.tanpToDet env (g.detToTanp env p) = p := by
+  simp only [GCorr.detToTanp, GCorr.tanpToDet, GCorr.partialFwd, GCorr.partialInv,
+    sdiv_smul _ h.c_ne, Aff.inv_app _ hg.1, h.Uinv_U _ hd, h.Dinv_D]
+
+/-- `tanp_to_world ∘ world_to_tanp = id` at sky points whose V2V3 pre-image is in the domain -/
+theorem pgwcs_world_tanp (w : V2 K) (hd : dom (env.Rinv w)) :
+    g.tanpToWorld env (g.worldToTanp env w) = w := by
+  cases hc : g.corrected with
+  | true =>
+    simp only [GCorr.worldToTanp, GCorr.tanpToWorld, GCorr.partialFwd, GCorr.partialInv,
+      g.worldToV23_corrected env hc, g.v23ToWorld_corrected env hc, h.U_Uinv,
+      sdiv_smul _ h.c_ne, Aff.app_inv _ hg.1, h.Uinv_U _ hd, h.R_Rinv]
+  | false =>
+    simp only [GCorr.worldToTanp, GCorr.tanpToWorld, GCorr.partialFwd, GCorr.partialInv,
+      g.worldToV23_fresh env hc, g.v23ToWorld_fresh env hc,
+      sdiv_smul _ h.c_ne, Aff.inv_app _ hg.1, h.Uinv_U _ hd, h.R_Rinv]
+
+/-- `world_to_det ∘ det_to_world = id` at detector points whose V2V3 image is in the domain -/
+theorem pgwcs_world_det (p : V2 K) (hd : dom (env.D p)) :
+    g.worldToDet env (g.detToWorld env p) = p := by
+  cases hc : g.corrected with
+  | true =>
+    simp only [GCorr.worldToDet, GCorr.detToWorld, g.worldToV23_corrected env hc,
+      g.v23ToWorld_corrected env hc, h.Rinv_R, h.U_Uinv, Aff.inv_app _ hg.1, h.Uinv_U _ hd,
+      h.Dinv_D]
+  | false =>
+    simp only [GCorr.worldToDet, GCorr.detToWorld, g.worldToV23_fresh env hc,
+      g.v23ToWorld_fresh env hc, h.Rinv_R, h.Dinv_D]
+
+/-- `det_to_world ∘ world_to_det = id` at sky points whose V2V3 pre-image is in the domain -/
+theorem pgwcs_det_world (w : V2 K) (hd : dom (env.Rinv w)) :
+    g.detToWorld env (g.worldToDet env w) = w := by
+  cases hc : g.corrected with
+  | true =>
+    simp only [GCorr.worldToDet, GCorr.detToWorld, g.worldToV23_corrected env hc,
+      g.v23ToWorld_corrected env hc, h.D_Dinv, h.U_Uinv, Aff.app_inv _ hg.1, h.Uinv_U _ hd,
+      h.R_Rinv]
+  | false =>
+    simp only [GCorr.worldToDet, GCorr.detToWorld, g.worldToV23_fresh env hc,
+      g.v23ToWorld_fresh env hc, h.D_Dinv, h.R_Rinv]
+
+/-- `tanp_to_world ∘ det_to_tanp = det_to_world`: unconditional once the WCS carries a
+correction; before the first correction `det_to_world` does not go through `U`, so the point must
+be in the domain -/
+theorem pgwcs_triangle_world (p : V2 K) (hd : g.corrected = false → dom (env.D p)) :
+    g.tanpToWorld env (g.detToTanp env p) = g.detToWorld env p := by
+  cases hc : g.corrected with
+  | true =>
+    simp only [GCorr.tanpToWorld, GCorr.detToTanp, GCorr.detToWorld, GCorr.partialFwd,
+      GCorr.partialInv, g.v23ToWorld_corrected env hc, sdiv_smul _ h.c_ne, Aff.inv_app _ hg.1,
+      h.U_Uinv]
+  | false =>
+    simp only [GCorr.tanpToWorld, GCorr.detToTanp, GCorr.detToWorld, GCorr.partialFwd,
+      GCorr.partialInv, g.v23ToWorld_fresh env hc, sdiv_smul _ h.c_ne, Aff.inv_app _ hg.1,
+      h.Uinv_U _ (hd hc)]
+
+/-- `world_to_tanp ∘ det_to_world = det_to_tanp` — unconditional -/
+theorem pgwcs_triangle_tanp (p : V2 K) :
+    g.worldToTanp env (g.detToWorld env p) = g.detToTanp env p := by
+  cases hc : g.corrected with
+  | true =>
+    simp only [GCorr.worldToTanp, GCorr.detToTanp, GCorr.detToWorld, GCorr.partialFwd,
+      g.worldToV23_corrected env hc, g.v23ToWorld_corrected env hc, h.Rinv_R, h.U_Uinv,
+      Aff.inv_app _ hg.1]
+  | false =>
+    simp only [GCorr.worldToTanp, GCorr.detToTanp, GCorr.detToWorld, GCorr.partialFwd,
+      g.worldToV23_fresh env hc, g.v23ToWorld_fresh env hc, h.Rinv_R]
+
+/-- `tanp_to_det ∘ world_to_tanp = world_to_det`: unconditional once corrected -/
+theorem pgwcs_triangle_det (w : V2 K) (hd : g.corrected = false → dom (env.Rinv w)) :
+    g.tanpToDet env (g.worldToTanp env w) = g.worldToDet env w := by
+  cases hc : g.corrected with
+  | true =>
+    simp only [GCorr.tanpToDet, GCorr.worldToTanp, GCorr.worldToDet, GCorr.partialFwd,
+      GCorr.partialInv, g.worldToV23_corrected env hc, sdiv_smul _ h.c_ne, h.U_Uinv,
+      Aff.app_inv _ hg.1]
+  | false =>
+    simp only [GCorr.tanpToDet, GCorr.worldToTanp, GCorr.worldToDet, GCorr.partialFwd,
+      GCorr.partialInv, g.worldToV23_fresh env hc, sdiv_smul _ h.c_ne,
+      Aff.inv_app _ hg.1, h.Uinv_U _ (hd hc)]
+
+end pbij
+
+/-! #### (e) the concrete environment -/
+
+/-- the environment built from the concrete `U`/`Uinv` and arbitrary bijections `D`, `R` is a
+partial-bijection environment on `tpInDomain`; `U ∘ Uinv = id` holds everywhere -/
+theorem tanproj_env_pbij (v2ref v3ref roll : ℝ) (D Dinv R Rinv : V2 ℝ → V2 ℝ) (c : ℝ)
+    (hD1 : ∀ p, Dinv (D p) = p) (hD2 : ∀ v, D (Dinv v) = v) (hR1 : ∀ v, Rinv (R v) = v)
+    (hR2 : ∀ w, R (Rinv w) = w) (hc : c ≠ 0) :
+    (tpEnv v2ref v3ref roll D Dinv R Rinv c).PBij (fun v => tpInDomain v2ref v3ref roll v = true) :=
+  ⟨hD1, hD2, fun v hv => tpUinv_tpU v2ref v3ref roll v hv, tpU_tpUinv v2ref v3ref roll, hR1, hR2, hc⟩
+
+/-- the model's correction maps over the concrete environment ARE `total_corr`, its inverse,
+`_v2v3_to_tpcorr_from_full(tpcorr)` and its inverse (definitional) -/
+theorem tanproj_env_maps (v2ref v3ref roll : ℝ) (D Dinv R Rinv : V2 ℝ → V2 ℝ) (c : ℝ)
+    (g : GCorr ℝ) (v : V2 ℝ) :
+    g.tpcorrFwd (tpEnv v2ref v3ref roll D Dinv R Rinv c) v = totalCorr v2ref v3ref roll g.aff v ∧
+    g.tpcorrInv (tpEnv v2ref v3ref roll D Dinv R Rinv c) v = invTotalCorr v2ref v3ref roll g.aff v ∧
+    g.partialFwd (tpEnv v2ref v3ref roll D Dinv R Rinv c) v = v2v3ToTpcorr v2ref v3ref roll g.aff v ∧
+    g.partialInv (tpEnv v2ref v3ref roll D Dinv R Rinv c) v = tpcorrToV2v3 v2ref v3ref roll g.aff v :=
+  ⟨rfl, rfl, rfl, rfl⟩
+
+/-- every state reachable from a fresh corrector by admissible operations is well formed, whatever
+the environment (only `c ≠ 0` matters): the theorems below apply to all reachable states -/
+theorem tanproj_reachable_WF (c : K) (hc : c ≠ 0) (frms : List String)
+    (hfr : frms.contains "v2v3corr" = false) (ops : List (GOp K)) (hops : ∀ op ∈ ops, GOp.ok op) :
+    ((GCorr.fresh frms : GCorr K).run c ops).WF :=
+  gwcs_reachable_WF (⟨id, id, id, id, id, id, c⟩ : GEnv K)
+    ⟨fun _ => rfl, fun _ => rfl, fun _ => rfl, fun _ => rfl, fun _ => rfl, fun _ => rfl, hc⟩
+    frms hfr ops hops
+
+section concrete
+variable (v2ref v3ref roll : ℝ) (D Dinv R Rinv : V2 ℝ → V2 ℝ) (c : ℝ)
+  (hD1 : ∀ p, Dinv (D p) = p) (hD2 : ∀ v, D (Dinv v) = v) (hR1 : ∀ v, Rinv (R v) = v)
+  (hR2 : ∀ w, R (Rinv w) = w) (hc : c ≠ 0) (g : GCorr ℝ) (hg : g.WF)
+include hD1 hD2 hR1 hR2 hc hg
+
+/-- unconditional chart-level round trips and triangle over the concrete environment -/
+theorem tanproj_gwcs_unconditional (x : V2 ℝ) (p : V2 ℝ) :
+    let env := tpEnv v2ref v3ref roll D Dinv R Rinv c
+    g.detToTanp env (g.tanpToDet env x) = x ∧ g.worldToTanp env (g.tanpToWorld env x) = x ∧
+    g.worldToTanp env (g.detToWorld env p) = g.detToTanp env p := by
+  have h := tanproj_env_pbij v2ref v3ref roll D Dinv R Rinv c hD1 hD2 hR1 hR2 hc
+  exact ⟨pgwcs_det_tanp _ h g hg x, pgwcs_tanp_world _ h g hg x, pgwcs_triangle_tanp _ h g hg p⟩
+
+/-- round trips and triangle that start at a detector point whose V2V3 image is in the domain -/
+theorem tanproj_gwcs_det (p : V2 ℝ) (hd : tpInDomain v2ref v3ref roll (D p) = true) :
+    let env := tpEnv v2ref v3ref roll D Dinv R Rinv c
+    g.tanpToDet env (g.detToTanp env p) = p ∧ g.worldToDet env (g.detToWorld env p) = p ∧
+    g.tanpToWorld env (g.detToTanp env p) = g.detToWorld env p := by
+  have h := tanproj_env_pbij v2ref v3ref roll D Dinv R Rinv c hD1 hD2 hR1 hR2 hc
+  exact ⟨pgwcs_tanp_det _ h g hg p hd, pgwcs_world_det _ h g hg p hd,
+    pgwcs_triangle_world _ h g hg p (fun _ => hd)⟩
+
+/-- round trips and triangle that start at a sky point whose V2V3 pre-image is in the domain -/
+theorem tanproj_gwcs_world (w : V2 ℝ) (hd : tpInDomain v2ref v3ref roll (Rinv w) = true) :
+    let env := tpEnv v2ref v3ref roll D Dinv R Rinv c
+    g.tanpToWorld env (g.worldToTanp env w) = w ∧ g.detToWorld env (g.worldToDet env w) = w ∧
+    g.tanpToDet env (g.worldToTanp env w) = g.worldToDet env w := by
+  have h := tanproj_env_pbij v2ref v3ref roll D Dinv R Rinv c hD1 hD2 hR1 hR2 hc
+  exact ⟨pgwcs_world_tanp _ h g hg w hd, pgwcs_det_world _ h g hg w hd,
+    pgwcs_triangle_det _ h g hg w (fun _ => hd)⟩
+
+end concrete
+
+-- non-vacuity of the hypotheses of the three theorems above: a reachable (corrected, re-wrapped)
+-- state is well formed, the concrete environment with `D = R = id` is a partial-bijection
+-- environment, and a concrete detector point has its V2V3 image in the domain
+example :
+    let g : GCorr ℝ := (GCorr.fresh ["detector", "v2v3", "world"]).run 3600
+      [.setCorr ⟨⟨1, 1/10, 0, 1⟩, ⟨5, -7⟩⟩ none, .rewrap]
+    g.WF ∧ (tpEnv (90 : ℝ) 0 0 id id id id 3600).PBij (fun v => tpInDomain 90 0 0 v = true) ∧
+      tpInDomain (90 : ℝ) 0 0 (id ⟨216000, 0⟩) = true := by
+  refine ⟨tanproj_reachable_WF 3600 (by norm_num) _ (by decide) _ ?_,
+    tanproj_env_pbij 90 0 0 id id id id 3600 (fun _ => rfl) (fun _ => rfl) (fun _ => rfl)
+      (fun _ => rfl) (by norm_num), tpInDomain_example⟩
+  intro op hop
+  simp only [List.mem_cons, List.mem_nil_iff, or_false] at hop
+  rcases hop with rfl | rfl
+  · exact ⟨by simp [M2.det], fun q' hq => by cases hq⟩
+  · trivial
+
+/-! #### (e) `total_corr` at sphere level -/
+
+/-- `total_corr.inverse ∘ total_corr = id` on the domain -/
+theorem tanproj_invTotal_total (v2ref v3ref roll : ℝ) (a : Aff ℝ) (ha : a.m.det ≠ 0) (v : V2 ℝ)
+    (hd : tpInDomain v2ref v3ref roll v = true) :
+    invTotalCorr v2ref v3ref roll a (totalCorr v2ref v3ref roll a v) = v := by
+  simp only [invTotalCorr, totalCorr, tpU_tpUinv, Aff.inv_app _ ha, tpUinv_tpU _ _ _ _ hd]
+
+/-- `total_corr ∘ total_corr.inverse = id` on the domain -/
+theorem tanproj_total_invTotal (v2ref v3ref roll : ℝ) (a : Aff ℝ) (ha : a.m.det ≠ 0) (v : V2 ℝ)
+    (hd : tpInDomain v2ref v3ref roll v = true) :
+    totalCorr v2ref v3ref roll a (invTotalCorr v2ref v3ref roll a v) = v := by
+  simp only [invTotalCorr, totalCorr, tpU_tpUinv, Aff.app_inv _ ha, tpUinv_tpU _ _ _ _ hd]
+
+/-- `total_corr` with the identity affine (a fresh `_tpcorr_init`) is the identity on the domain -/
+theorem tanproj_total_id (v2ref v3ref roll : ℝ) (v : V2 ℝ)
+    (hd : tpInDomain v2ref v3ref roll v = true) : totalCorr v2ref v3ref roll Aff.id v = v := by
+  simp only [totalCorr, Aff.id_app, tpUinv_tpU _ _ _ _ hd]
+
+/-- composition law at sphere level, for EVERY V2V3 point (the intermediate point
+`total_corr(B)(v)` is an image of `Uinv`, hence always in the hemisphere) -/
+theorem tanproj_total_comp (v2ref v3ref roll : ℝ) (a b : Aff ℝ) (v : V2 ℝ) :
+    totalCorr v2ref v3ref roll (a.comp b) v =
+      totalCorr v2ref v3ref roll a (totalCorr v2ref v3ref roll b v) := by
+  simp only [totalCorr, tpU_tpUinv, Aff.app_comp]
+
+/-- `_tpcorr_combine_affines` at sphere level: the updated `total_corr` is the old one followed
+by the `total_corr` of the new increment -/
+theorem tanproj_total_combine (v2ref v3ref roll c : ℝ) (old f : Aff ℝ) (v : V2 ℝ) :
+    totalCorr v2ref v3ref roll (combineAffines c old f) v =
+      totalCorr v2ref v3ref roll ⟨f.m, f.t.sdiv c⟩ (totalCorr v2ref v3ref roll old v) := by
+  have : combineAffines c old f = (⟨f.m, f.t.sdiv c⟩ : Aff ℝ).comp old := rfl
+  rw [this, tanproj_total_comp]
+
+/-- `_v2v3_to_tpcorr_from_full(tpcorr)` and its `.inverse`: plane side unconditional, V2V3 side
+on the domain -/
+theorem tanproj_partial_roundtrip (v2ref v3ref roll : ℝ) (a : Aff ℝ) (ha : a.m.det ≠ 0) :
+    (∀ x, v2v3ToTpcorr v2ref v3ref roll a (tpcorrToV2v3 v2ref v3ref roll a x) = x) ∧
+    (∀ v, tpInDomain v2ref v3ref roll v = true →
+      tpcorrToV2v3 v2ref v3ref roll a (v2v3ToTpcorr v2ref v3ref roll a v) = v) := by
+  constructor
+  · intro x
+    simp only [v2v3ToTpcorr, tpcorrToV2v3, tpU_tpUinv, Aff.app_inv _ ha]
+  · intro v hd
+    simp only [v2v3ToTpcorr, tpcorrToV2v3, Aff.inv_app _ ha, tpUinv_tpU _ _ _ _ hd]
+
+-- non-vacuity of the affine hypotheses (an invertible correction) over ℝ
+example : (⟨⟨1, 1/10, 0, 1⟩, ⟨5, -7⟩⟩ : Aff ℝ).m.det ≠ 0 := by
+  simp [M2.det]
+
+end tanproj
 
 end TW.C03
